@@ -47,6 +47,8 @@ type verifTask struct {
 	lanes      []int
 	waits      []string
 	halts      []string
+	spawn      int  // tasks its do handler adds to the change when it succeeds (as snapstate.InjectTasks)
+	dynamic    bool // was added by a handler at run time
 
 	notBefore   time.Time // earliest legal start (scheduled tasks)
 	doApplied   int
@@ -164,9 +166,10 @@ type verifWorldA struct {
 	payloads     [][]byte
 	nextEnsure time.Time
 
-	st *state.State
-	r  *state.TaskRunner
-	be *verifBackendA
+	st  *state.State
+	r   *state.TaskRunner
+	be  *verifBackendA
+	cfg *verifCfgA
 
 	tasks   map[string]*verifTask // by id
 	changes []*verifChange
@@ -244,6 +247,7 @@ type verifCfgA struct {
 	ckptFail    bool
 	spontaneous bool
 	clients     bool
+	spawn       bool
 }
 
 func verifRunA(c *verifsim.Ctx) {
@@ -264,6 +268,8 @@ func verifRunA(c *verifsim.Ctx) {
 	cfg.at = c.Chance("cfg.at", 1, 4)
 	cfg.spontaneous = c.Chance("cfg.spont", 1, 2)
 	cfg.clients = c.Prop == "C04" && c.Chance("cfg.clients", 1, 2)
+	cfg.spawn = c.Chance("cfg.spawn", 1, 3)
+	w.cfg = &cfg
 	switch c.Prop {
 	case "C03":
 		cfg.aborts = cfg.faults && c.Chance("cfg.aborts", 2, 3)
@@ -281,12 +287,16 @@ func verifRunA(c *verifsim.Ctx) {
 
 	st.Lock()
 	st.AddChangeStatusChangedHandler(w.changeStatusChanged)
-	nchg := 1 + c.Draw("nchanges", 3)
+	maxChg, maxTasks := 3, 9
+	if c.Tier == "thorough" {
+		maxChg, maxTasks = 4, 14
+	}
+	nchg := 1 + c.Draw("nchanges", maxChg)
 	for ci := 0; ci < nchg; ci++ {
 		chg := st.NewChange("kind"+strconv.Itoa(ci), "change "+strconv.Itoa(ci))
 		vc := &verifChange{idx: ci, id: chg.ID()}
 		w.changes = append(w.changes, vc)
-		n := 2 + c.Draw("ntasks", 9)
+		n := 2 + c.Draw("ntasks", maxTasks)
 		nl := c.Draw("nlanes", 5)
 		lanes := []int{}
 		for i := 0; i < nl; i++ {
@@ -309,6 +319,9 @@ func verifRunA(c *verifsim.Ctx) {
 				vt.retryAfter = []time.Duration{0, time.Second, 3 * time.Minute, 2 * time.Hour}[c.Draw("retryafter", 4)]
 			} else if cfg.wait && c.Chance("wait", 1, 6) {
 				vt.script = verifScriptWait
+			}
+			if cfg.spawn && vt.script == verifScriptOK && c.Chance("spawns", 1, 5) {
+				vt.spawn = 1 + c.Draw("nspawn", 2)
 			}
 			if cfg.wait {
 				vt.waitBySet = c.Chance("wait-by-set", 1, 2)
@@ -780,6 +793,9 @@ func (w *verifWorldA) release(p *verifParked) {
 			}
 			vt.doApplied++
 			vt.lastOp = "do"
+			if vt.spawn > 0 {
+				w.spawnTasks(vt)
+			}
 		}
 	}
 	rs := "ok"
@@ -789,6 +805,75 @@ func (w *verifWorldA) release(p *verifParked) {
 	c.Logf("%s %s killed=%v -> %s", what, vt.label, killed, rs)
 	p.ch <- res
 	w.afterAction()
+}
+
+// spawnTasks is what a handler does that extends its change while it runs
+// (snapstate.InjectTasks): the new tasks join the lanes of the running task
+// and wait for it, and everything that waited for it also waits for them. A
+// careful handler does this once (it records that it did) and only while its
+// task is still Doing (not when an abort overtook it).
+func (w *verifWorldA) spawnTasks(vt *verifTask) {
+	c := w.c
+	w.st.Lock()
+	defer w.st.Unlock()
+	t := w.st.Task(vt.id)
+	if t == nil || t.Status() != state.DoingStatus {
+		c.Count("probe:spawn-skipped-task-not-doing")
+		return
+	}
+	var done bool
+	if err := t.Get("verif-spawned", &done); err == nil && done {
+		c.Count("probe:spawn-skipped-already-done")
+		return
+	}
+	t.Set("verif-spawned", true)
+	chg := t.Change()
+	vc := w.changes[vt.chg]
+	lanes := t.Lanes()
+	if len(lanes) == 1 && lanes[0] == 0 {
+		lanes = nil
+	}
+	oldHalts := append([]string(nil), vt.halts...)
+	var prev *state.Task
+	var prevVT *verifTask
+	for i := 0; i < vt.spawn; i++ {
+		kind := "u"
+		if c.Chance("spawn-noundo", 1, 5) {
+			kind = "n"
+		}
+		label := fmt.Sprintf("%s.s%d", vt.label, i)
+		nt := w.st.NewTask(kind, label)
+		nvt := &verifTask{label: label, id: nt.ID(), chg: vt.chg, undoable: kind == "u", dynamic: true, lanes: append([]int(nil), vt.lanes...)}
+		if w.cfg.pFail > 0 && c.Chance("spawn-faildo", w.cfg.pFail, 20) {
+			nvt.script = verifScriptFail
+		}
+		nvt.ignoreKill = c.Chance("spawn-ignorekill", 1, 2)
+		for _, l := range lanes {
+			nt.JoinLane(l)
+		}
+		chg.AddTask(nt)
+		for _, h := range oldHalts {
+			if ht := w.st.Task(h); ht != nil {
+				ht.WaitFor(nt)
+				w.tasks[h].waits = append(w.tasks[h].waits, nt.ID())
+				nvt.halts = append(nvt.halts, h)
+			}
+		}
+		nt.WaitFor(t)
+		nvt.waits = append(nvt.waits, vt.id)
+		vt.halts = append(vt.halts, nt.ID())
+		if prev != nil && c.Chance("spawn-chain", 1, 2) {
+			nt.WaitFor(prev)
+			nvt.waits = append(nvt.waits, prevVT.id)
+			prevVT.halts = append(prevVT.halts, nt.ID())
+		}
+		prev, prevVT = nt, nvt
+		vc.tasks = append(vc.tasks, nvt)
+		w.tasks[nvt.id] = nvt
+		c.Logf("spawned %s id=%s undoable=%v script=%d lanes=%v waits=%v halts=%v", nvt.label, nvt.id, nvt.undoable, nvt.script, nvt.lanes, w.labels(nvt.waits), w.labels(nvt.halts))
+	}
+	c.Count("probe:tasks-added-by-running-handler")
+	c.Nontrivial()
 }
 
 // setToWait is what a handler does before returning nil when it needs a
@@ -1073,6 +1158,40 @@ func (w *verifWorldA) crash() {
 	}
 	if err := json.Unmarshal(payload, &raw); err != nil {
 		c.Fatalf("payload not JSON: %v", err)
+	}
+
+	// tasks a handler had added whose addition was not durable are gone with
+	// the process (the handler adds them again when it is run again)
+	gone := map[string]bool{}
+	for _, vc := range w.changes {
+		keep := vc.tasks[:0]
+		for _, vt := range vc.tasks {
+			if _, ok := raw.Tasks[vt.id]; !ok && vt.dynamic {
+				gone[vt.id] = true
+				c.Count("probe:crash-loses-tasks-added-at-run-time")
+				continue
+			}
+			keep = append(keep, vt)
+		}
+		vc.tasks = keep
+	}
+	if len(gone) > 0 {
+		strip := func(ids []string) []string {
+			out := ids[:0]
+			for _, id := range ids {
+				if !gone[id] {
+					out = append(out, id)
+				}
+			}
+			return out
+		}
+		for id := range gone {
+			delete(w.tasks, id)
+		}
+		for _, vt := range w.tasks {
+			vt.waits = strip(vt.waits)
+			vt.halts = strip(vt.halts)
+		}
 	}
 
 	// in-flight handlers die with the process; their outside effect may
